@@ -102,10 +102,26 @@ func concCmd(args []string) error {
 		}
 		g := toInt(sc["goroutines"])
 		rounds := toInt(sc["rounds"])
-		seq := make([][]byte, len(corpus))
-		for i, c := range corpus {
-			seq[i] = observeScenario(c)
+		clone := func(i int) J {
+			var c J
+			js, _ := json.Marshal(corpus[i])
+			d := json.NewDecoder(bytes.NewReader(js))
+			d.UseNumber()
+			d.Decode(&c)
+			return c
 		}
+		// sequential reference, forward; then again in reverse order: independent values do not depend on what was processed before
+		seq := make([][]byte, len(corpus))
+		for i := range corpus {
+			seq[i] = observeScenario(clone(i))
+		}
+		orderMismatches := 0
+		for i := len(corpus) - 1; i >= 0; i-- {
+			if !bytes.Equal(observeScenario(clone(i)), seq[i]) {
+				orderMismatches++
+			}
+		}
+		obs["orderMismatches"] = orderMismatches
 		mismatches, compared := 0, 0
 		var mu sync.Mutex
 		first := ""
@@ -117,14 +133,11 @@ func concCmd(args []string) error {
 				go func(w int) {
 					defer wg.Done()
 					<-start
-					for i := w; i < len(corpus); i += g {
-						// copy the scenario: each goroutine works on its own values
-						var c J
-						js, _ := json.Marshal(corpus[i])
-						d := json.NewDecoder(bytes.NewReader(js))
-						d.UseNumber()
-						d.Decode(&c)
-						got := observeScenario(c)
+					// every goroutine processes the whole corpus, each starting at its own offset
+					off := (w * len(corpus)) / g
+					for k := 0; k < len(corpus); k++ {
+						i := (off + k) % len(corpus)
+						got := observeScenario(clone(i))
 						mu.Lock()
 						compared++
 						if !bytes.Equal(got, seq[i]) {
